@@ -139,6 +139,7 @@ func TestChainTransparency(t *testing.T) {
 			"1-2 remote streams with generated StreamInfo (RTX, FEC, transport-cc id 1..14 or absent), <= 40 operations: write/read RTP (all header shapes, payload 0..1460) and RTCP compounds "+
 			"with the innermost reader/writer failing at generated points; then Unbind and Close; non-trivial = chain length >= 2 and a packet with CSRC/extension/padding or an injected fault; distinct by chain and operations")
 	rapid.Check(t, func(t *rapid.T) {
+		kit.Idle()
 		interval := time.Duration(rapid.IntRange(1, 2).Draw(t, "intervalMS")) * time.Millisecond
 		nMembers := rapid.IntRange(0, 6).Draw(t, "members")
 		var names []string
